@@ -247,6 +247,13 @@ func runC03(c *ev.Ctx) {
 				emit(c03Doc{`{"k":` + lit + "}", spec.O(spec.P("k", spec.S(val))), tag + "/object-value"}) &&
 				emit(c03Doc{"{" + lit + ":1}", spec.O(spec.P(val, spec.I(1))), tag + "/object-key"})
 		}
+		// the same literal followed / preceded by further members (buffers must be reset between members)
+		ctxSeq := func(lit string, val string, tag string) bool {
+			return emit(c03Doc{"[" + lit + `,"z",1,` + lit + "]", spec.L(spec.S(val), spec.S("z"), spec.I(1), spec.S(val)), tag + "/list-sequence"}) &&
+				emit(c03Doc{`{"k":` + lit + `,"j":"z","i":2}`, spec.O(spec.P("k", spec.S(val)), spec.P("j", spec.S("z")), spec.P("i", spec.I(2))), tag + "/object-sequence"}) &&
+				emit(c03Doc{"{" + lit + `:"v","j":` + lit + "}", c03KeySeq(val), tag + "/key-sequence"}) &&
+				emit(c03Doc{"[1," + lit + ",[" + lit + "],{" + `"q":` + lit + "}]", spec.L(spec.I(1), spec.S(val), spec.L(spec.S(val)), spec.O(spec.P("q", spec.S(val)))), tag + "/mixed-sequence"})
+		}
 		for r := rune(0x20); r <= utf8.MaxRune; r++ {
 			if r == '"' || r == '\\' || (r >= 0xD800 && r <= 0xDFFF) {
 				continue
@@ -260,7 +267,7 @@ func runC03(c *ev.Ctx) {
 				continue
 			}
 			lo := fmt.Sprintf("%04x", r)
-			if !ctx(`"`+bs+"u"+lo+`"`, string(r), "u-escape-lower") {
+			if !ctx(`"`+bs+"u"+lo+`"`, string(r), "u-escape-lower") || !ctxSeq(`"`+bs+"u"+lo+`"`, string(r), "u-escape-lower") {
 				return
 			}
 			if up := strings.ToUpper(lo); up != lo {
@@ -284,7 +291,7 @@ func runC03(c *ev.Ctx) {
 			}
 		}
 		for _, se := range [][2]string{{`"`, `"`}, {bs, bs}, {"/", "/"}, {"b", "\b"}, {"f", "\f"}, {"n", "\n"}, {"r", "\r"}, {"t", "\t"}} {
-			if !ctx(`"`+bs+se[0]+`"`, se[1], "short-escape") || !ctx(`"x`+bs+se[0]+`y"`, "x"+se[1]+"y", "short-escape") {
+			if !ctx(`"`+bs+se[0]+`"`, se[1], "short-escape") || !ctx(`"x`+bs+se[0]+`y"`, "x"+se[1]+"y", "short-escape") || !ctxSeq(`"`+bs+se[0]+`"`, se[1], "short-escape") {
 				return
 			}
 		}
@@ -301,7 +308,7 @@ func runC03(c *ev.Ctx) {
 				lit.WriteString(toks[d].lit)
 				val.WriteString(toks[d].val)
 			}
-			if !ctx(`"`+lit.String()+`"`, val.String(), "token-string") {
+			if !ctx(`"`+lit.String()+`"`, val.String(), "token-string") || !ctxSeq(`"`+lit.String()+`"`, val.String(), "token-string") {
 				return
 			}
 		}
@@ -349,6 +356,14 @@ func runC03(c *ev.Ctx) {
 	if c.Expired() {
 		c.Cut("deadline reached before the text space was completed")
 	}
+}
+
+// c03KeySeq is the expectation of {<lit>:"v","j":<lit>} (the literal may itself spell the key "j": last wins).
+func c03KeySeq(val string) *spec.V {
+	if val == "j" {
+		return spec.O(spec.P("j", spec.S(val)))
+	}
+	return spec.O(spec.P(val, spec.S("v")), spec.P("j", spec.S(val)))
 }
 
 // c03Class names the spelling feature of a text that distinguishes root causes.
